@@ -26,9 +26,9 @@ func init() {
 			rng := rand.New(rand.NewSource(seed + 20))
 			sp := stepPaths(tier, rng)
 			one := pathsWith(sp, func(p Path) bool { return nSteps(p) <= 1 })
-			two := samplePaths(pathsWith(sp, func(p Path) bool { return nSteps(p) == 2 }), tierN(tier, 120, 1200), rng)
-			fl := samplePaths(filterPaths(tier, rng), tierN(tier, 350, 6000), rng)
-			fn := samplePaths(funcPaths(tier, rng), tierN(tier, 60, 800), rng)
+			two := samplePaths(pathsWith(sp, func(p Path) bool { return nSteps(p) == 2 }), tierN(tier, 60, 1200), rng)
+			fl := samplePaths(filterPaths(tier, rng), tierN(tier, 160, 6000), rng)
+			fn := samplePaths(funcPaths(tier, rng), tierN(tier, 30, 800), rng)
 			var jobs []*engine.Job
 			for i, p := range dedupPaths(append(append(append(one, two...), fl...), fn...)) {
 				cfgName := ""
@@ -49,7 +49,7 @@ func init() {
 				narrow := docCfg(depth, 1, []string{"a"}, jsonScalars|opaqueMask())
 				jobs = append(jobs, &engine.Job{ID: fmt.Sprintf("c20-%d", i), Harness: "zzH_C20",
 					Params: map[string]string{"path": p.Text, "ast": p.Ast, "holes": p.Holes, "config": cfgName},
-					Docs:   map[string]*engine.DocCfg{"doc": cfg}, Budget: tierN(tier, 20000, 200000),
+					Docs:   map[string]*engine.DocCfg{"doc": cfg}, Budget: tierN(tier, 8000, 200000),
 					Narrow: []map[string]*engine.DocCfg{{"doc": narrow}}})
 			}
 			return jobs
